@@ -1,2 +1,552 @@
-import Sc3Verif.C16.Model
+/-
+C16 — Bus, buffer and node-id allocation is safe and complete.
+
+Property theorems only (helper lemmas are in `Lemmas.lean`).  The allocator theorems quantify
+over every partition size, reserved offset `pos`, address offset `off` (client id), every finite
+history of `alloc(n)` / `free(x)` / `free(None)` (live, already freed, never allocated and
+interior addresses) and every choice oracle `k` of the random tie-break.
+-/
+import Sc3Verif.C16.Lemmas
 import Sc3Verif.C16.GenPartition
+import Mathlib.Tactic.Linarith
+namespace Sc3Verif.C16
+
+/-! ## ContiguousBlockAllocator -/
+
+/-- one step from a state satisfying the invariant whose used blocks are the ledger -/
+theorem step_good {a : CBA} {bs : List Block} {L : Ledger} (h : Inv a bs) (hL : L.Matches bs)
+    {op : Op} (hv : op.Valid a.off a.size) :
+    ∃ a' o bs', a.step op = .ok (a', o) ∧ Inv a' bs' ∧ (L.step op o).Matches bs' ∧
+      SameFrame a' a ∧ StepOk a.pos (a.off + a.size) L op o := by
+  have hw := h.toWInv
+  cases op with
+  | alloc n k =>
+    have hn : 0 < n := hv
+    simp only [CBA.step]
+    rcases alloc_inv h hn k with ⟨a', pre, b, post, e, rfl, hf, hle, hi, hfr⟩ | ⟨e, hsmall⟩
+    · rw [e]
+      refine ⟨a', .addr (some b.start), _, rfl, hi, ?_, hfr, ?_⟩
+      · -- ledger matches the new block list
+        intro x m
+        simp only [Ledger.step, List.mem_cons, Prod.mk.injEq, afterAlloc, List.mem_append]
+        rw [hL x m]
+        simp only [List.mem_append, List.mem_cons]
+        have hbne : (⟨x, m, true⟩ : Block) ≠ b := fun e => by rw [← e] at hf; simp at hf
+        constructor
+        · rintro (⟨rfl, rfl⟩ | h1 | h1 | h1)
+          · exact Or.inr (Or.inl rfl)
+          · exact Or.inl h1
+          · exact absurd h1 hbne
+          · exact Or.inr (Or.inr (Or.inr h1))
+        · rintro (h1 | h1 | h1 | h1)
+          · exact Or.inr (Or.inl h1)
+          · simp only [Block.mk.injEq, and_true] at h1; exact Or.inl h1
+          · split at h1
+            · simp at h1
+            · simp at h1
+          · exact Or.inr (Or.inr (Or.inr h1))
+      · -- in the partition, disjoint from every live range
+        have hs := tiles_split hw.tiles
+        have hm := tiles_mem hw.tiles (b := b) (by simp)
+        refine ⟨hm.1, by omega, ?_⟩
+        intro r hr
+        have : (⟨r.1, r.2, true⟩ : Block) ∈ pre ++ b :: post := (hL r.1 r.2).mp (by cases r; exact hr)
+        rcases List.mem_append.mp this with h1 | h1
+        · have := tiles_mem hs.1 h1; right; simp only at this; omega
+        · rcases List.mem_cons.mp h1 with h1 | h1
+          · rw [← h1] at hf; simp at hf
+          · have := tiles_mem hs.2.2 h1; left; simp only at this; omega
+    · rw [e]
+      refine ⟨a, .addr none, bs, rfl, h, hL, SameFrame.refl a, ?_⟩
+      -- no space: then there is no free run
+      intro x ⟨hlo, hhi, hdis⟩
+      obtain ⟨pre, c, post, rfl, hc1, hc2⟩ := tiles_cover hw.tiles (x := x) ⟨hlo, by omega⟩
+      have hs := tiles_split hw.tiles
+      have hcfree : c.used = false := by
+        cases hu : c.used with
+        | false => rfl
+        | true =>
+          have : (c.start, c.size) ∈ L := (hL _ _).mpr (by
+            have : c = ⟨c.start, c.size, true⟩ := by cases c; simp_all
+            rw [← this]; simp)
+          have := hdis _ this
+          simp only [Disjoint] at this; omega
+      have hcs := hsmall c (by simp) hcfree
+      have hna := (noAdj_around_free hcfree).mp h.noAdj
+      cases post with
+      | nil => simp only [Tiles] at hs; omega
+      | cons d post' =>
+        have hd := hna.2.2.2 d rfl
+        have hds := hs.2.2
+        simp only [Tiles] at hds
+        have : (d.start, d.size) ∈ L := (hL _ _).mpr (by
+          have : d = ⟨d.start, d.size, true⟩ := by cases d; simp_all
+          rw [← this]; simp)
+        have := hdis _ this
+        simp only [Disjoint] at this; omega
+  | free x =>
+    cases x with
+    | none =>
+      exact ⟨a, .unit, bs, rfl, h, hL, SameFrame.refl a, trivial⟩
+    | some x =>
+      have hx : a.off ≤ x ∧ x < a.off + a.size := hv
+      obtain ⟨a', bs', e, hi, hfr, hu⟩ := free_inv h hx
+      simp only [CBA.step]
+      rw [e]
+      refine ⟨a', .unit, bs', rfl, hi, ?_, hfr, trivial⟩
+      intro y m
+      simp only [Ledger.step, List.mem_filter, bne_iff_ne, ne_eq]
+      rw [hu ⟨y, m, true⟩ rfl, hL y m]
+
+/-- `Inv` is preserved by `alloc` (names of DESIGN.md §5: `inv_init` is in `Lemmas.lean`).
+    Either a free block `b` with `n ≤ b.size` was taken (front part used, rest stays free) or
+    nothing changed and every free block is shorter than `n`. -/
+theorem inv_alloc {a : CBA} {bs : List Block} (h : Inv a bs) {n : Nat} (hn : 0 < n) (k : Nat) :
+    (∃ a' pre b post, a.alloc n k = .ok (a', some b.start) ∧ bs = pre ++ b :: post ∧
+        b.used = false ∧ n ≤ b.size ∧ Inv a' (afterAlloc pre post b n) ∧ SameFrame a' a) ∨
+    (a.alloc n k = .ok (a, none) ∧ ∀ b ∈ bs, b.used = false → b.size < n) := alloc_inv h hn k
+
+/-- `Inv` is preserved by `free` of any address of the range; the used blocks afterwards are the
+    used blocks before minus the one starting at `x` -/
+theorem inv_free {a : CBA} {bs : List Block} (h : Inv a bs) {x : Nat}
+    (hx : a.off ≤ x ∧ x < a.off + a.size) :
+    ∃ a' bs', a.free (some x) = .ok a' ∧ Inv a' bs' ∧ SameFrame a' a ∧
+      (∀ u, u.used = true → (u ∈ bs' ↔ u ∈ bs ∧ u.start ≠ x)) := free_inv h hx
+
+/-- every operation of the history is inside the model's domain -/
+def ValidOps (off size : Nat) (ops : List Op) : Prop := ∀ op ∈ ops, op.Valid off size
+
+theorem run_good {a : CBA} {bs : List Block} {L : Ledger} (h : Inv a bs) (hL : L.Matches bs)
+    (ops : List Op) (hv : ValidOps a.off a.size ops) :
+    ∃ a' outs bs', a.run ops = .ok (a', outs) ∧ Inv a' bs' ∧ (L.run ops outs).Matches bs' ∧
+      SameFrame a' a ∧ TraceOk a.pos (a.off + a.size) L ops outs := by
+  induction ops generalizing a bs L with
+  | nil => exact ⟨a, [], bs, rfl, h, hL, SameFrame.refl a, trivial⟩
+  | cons op ops ih =>
+    obtain ⟨a1, o, bs1, e1, h1, hL1, hf1, hs1⟩ := step_good h hL (hv op (by simp))
+    have hv' : ValidOps a1.off a1.size ops := by
+      rw [hf1.1, hf1.2.1]; exact fun op' hop => hv op' (by simp [hop])
+    obtain ⟨a2, outs, bs2, e2, h2, hL2, hf2, hs2⟩ := ih h1 hL1 hv'
+    refine ⟨a2, o :: outs, bs2, ?_, h2, hL2, hf2.trans hf1, hs1, ?_⟩
+    · simp only [CBA.run, e1, e2, bind, Except.bind, pure, Except.pure]
+    · rw [hf1.1, hf1.2.1, hf1.2.2] at hs2; exact hs2
+
+/-- MAIN.  For every partition size, reserved offset, client offset, every history of
+    `alloc(n≥1)` / `free` (any address of the range, `None`) and every choice oracle:
+    the allocator never raises, every range it hands out lies inside the client's partition
+    and overlaps no live range, and it answers "no space" only when no free run of the
+    requested length exists (so freed ranges, merged with their free neighbours, are available
+    again). -/
+theorem alloc_free_safe_and_complete {size pos off : Nat} {a0 : CBA}
+    (hinit : CBA.init size pos off = some a0) (ops : List Op) (hv : ValidOps off size ops) :
+    ∃ a outs, a0.run ops = .ok (a, outs) ∧ TraceOk (pos + off) (off + size) [] ops outs := by
+  obtain ⟨hi, ho, hs, hp⟩ := inv_init hinit
+  have hL : Ledger.Matches [] [(⟨pos + off, size - pos, false⟩ : Block)] := by
+    intro x n; simp
+  obtain ⟨a, outs, bs, e, _, _, _, ht⟩ := run_good hi hL ops (by rw [ho, hs]; exact hv)
+  rw [ho, hs, hp] at ht
+  exact ⟨a, outs, e, ht⟩
+
+/-- The invariant `Inv` holds after every history (`inv_init`, `alloc_inv`, `free_inv` are the
+    induction steps), and the used blocks are exactly the ledger of live ranges. -/
+theorem inv_reachable {size pos off : Nat} {a0 : CBA}
+    (hinit : CBA.init size pos off = some a0) (ops : List Op) (hv : ValidOps off size ops) :
+    ∃ a outs bs, a0.run ops = .ok (a, outs) ∧ Inv a bs ∧ (Ledger.run [] ops outs).Matches bs ∧
+      a.off = off ∧ a.size = size ∧ a.pos = pos + off := by
+  obtain ⟨hi, ho, hs, hp⟩ := inv_init hinit
+  have hL : Ledger.Matches [] [(⟨pos + off, size - pos, false⟩ : Block)] := by
+    intro x n; simp
+  obtain ⟨a, outs, bs, e, h1, h2, hf, _⟩ := run_good hi hL ops (by rw [ho, hs]; exact hv)
+  exact ⟨a, outs, bs, e, h1, h2, hf.1.trans ho, hf.2.1.trans hs, hf.2.2.trans hp⟩
+
+/-- states (with their ledger of live ranges) reachable by valid histories -/
+inductive Reach (size pos off : Nat) : CBA → Ledger → Prop
+  | init {a : CBA} : CBA.init size pos off = some a → Reach size pos off a []
+  | step {a a' : CBA} {L : Ledger} {op : Op} {o : Out} :
+      Reach size pos off a L → op.Valid off size → a.step op = .ok (a', o) →
+      Reach size pos off a' (L.step op o)
+
+theorem reach_inv {size pos off : Nat} {a : CBA} {L : Ledger} (h : Reach size pos off a L) :
+    ∃ bs, Inv a bs ∧ L.Matches bs ∧ a.off = off ∧ a.size = size ∧ a.pos = pos + off := by
+  induction h with
+  | init hinit =>
+    obtain ⟨hi, ho, hs, hp⟩ := inv_init hinit
+    exact ⟨_, hi, by intro x n; simp, ho, hs, hp⟩
+  | step _ hv e ih =>
+    obtain ⟨bs, hi, hL, ho, hs, hp⟩ := ih
+    obtain ⟨a1, o1, bs1, e1, h1, hL1, hf1, _⟩ := step_good hi hL (by rw [ho, hs]; exact hv)
+    rw [e] at e1
+    simp only [Except.ok.injEq, Prod.mk.injEq] at e1
+    obtain ⟨rfl, rfl⟩ := e1
+    exact ⟨bs1, h1, hL1, hf1.1.trans ho, hf1.2.1.trans hs, hf1.2.2.trans hp⟩
+
+/-- `Reach` is exactly "the result of running a valid history from a fresh allocator" -/
+theorem reach_of_run {size pos off : Nat} {a : CBA} {L : Ledger} (h : Reach size pos off a L)
+    (ops : List Op) (hv : ValidOps off size ops) {a' : CBA} {outs : List Out}
+    (e : a.run ops = .ok (a', outs)) : Reach size pos off a' (L.run ops outs) := by
+  induction ops generalizing a L outs with
+  | nil =>
+    simp only [CBA.run, pure, Except.pure, Except.ok.injEq, Prod.mk.injEq] at e
+    obtain ⟨rfl, rfl⟩ := e; exact h
+  | cons op ops ih =>
+    simp only [CBA.run, bind, Except.bind] at e
+    cases e1 : a.step op with
+    | error err => rw [e1] at e; simp at e
+    | ok r =>
+      obtain ⟨a1, o⟩ := r
+      rw [e1] at e
+      simp only [] at e
+      cases e2 : a1.run ops with
+      | error err => rw [e2] at e; simp at e
+      | ok r2 =>
+        obtain ⟨a2, os⟩ := r2
+        rw [e2] at e
+        simp only [pure, Except.pure, Except.ok.injEq, Prod.mk.injEq] at e
+        obtain ⟨rfl, rfl⟩ := e
+        exact ih (Reach.step h (hv op (by simp)) e1) (fun op' hop => hv op' (by simp [hop])) e2
+
+/-! ### corollaries, stated on reachable states -/
+
+/-- `alloc` and `free` never raise on a reachable state (inside the domain) -/
+theorem alloc_free_never_raise {size pos off : Nat} {a : CBA} {L : Ledger}
+    (h : Reach size pos off a L) {op : Op} (hv : op.Valid off size) :
+    ∃ a' o, a.step op = .ok (a', o) := by
+  obtain ⟨bs, hi, hL, ho, hs, hp⟩ := reach_inv h
+  obtain ⟨a1, o1, _, e1, _⟩ := step_good hi hL (op := op) (by rw [ho, hs]; exact hv)
+  exact ⟨a1, o1, e1⟩
+
+/-- a range handed out lies inside the client's partition `[pos+off, off+size)` -/
+theorem alloc_in_partition {size pos off : Nat} {a a' : CBA} {L : Ledger}
+    (h : Reach size pos off a L) {n k x : Nat} (hn : 0 < n)
+    (e : a.alloc n k = .ok (a', some x)) : pos + off ≤ x ∧ x + n ≤ off + size := by
+  obtain ⟨bs, hi, hL, ho, hs, hp⟩ := reach_inv h
+  obtain ⟨a1, o1, _, e1, _, _, _, hok⟩ := step_good hi hL (op := .alloc n k) hn
+  simp only [CBA.step, e, bind, Except.bind, pure, Except.pure, Except.ok.injEq, Prod.mk.injEq] at e1
+  obtain ⟨_, rfl⟩ := e1
+  rw [ho, hs, hp] at hok
+  exact ⟨hok.1, hok.2.1⟩
+
+/-- a range handed out overlaps no live range -/
+theorem alloc_disjoint_from_live {size pos off : Nat} {a a' : CBA} {L : Ledger}
+    (h : Reach size pos off a L) {n k x : Nat} (hn : 0 < n)
+    (e : a.alloc n k = .ok (a', some x)) : ∀ r ∈ L, Disjoint x n r.1 r.2 := by
+  obtain ⟨bs, hi, hL, ho, hs, hp⟩ := reach_inv h
+  obtain ⟨a1, o1, _, e1, _, _, _, hok⟩ := step_good hi hL (op := .alloc n k) hn
+  simp only [CBA.step, e, bind, Except.bind, pure, Except.pure, Except.ok.injEq, Prod.mk.injEq] at e1
+  obtain ⟨_, rfl⟩ := e1
+  exact hok.2.2
+
+/-- "no space" is reported only when no free run of the requested length exists -/
+theorem no_space_only_if_no_run {size pos off : Nat} {a a' : CBA} {L : Ledger}
+    (h : Reach size pos off a L) {n k : Nat} (hn : 0 < n)
+    (e : a.alloc n k = .ok (a', none)) : ∀ x, ¬ FreeRun L (pos + off) (off + size) x n := by
+  obtain ⟨bs, hi, hL, ho, hs, hp⟩ := reach_inv h
+  obtain ⟨a1, o1, _, e1, _, _, _, hok⟩ := step_good hi hL (op := .alloc n k) hn
+  simp only [CBA.step, e, bind, Except.bind, pure, Except.pure, Except.ok.injEq, Prod.mk.injEq] at e1
+  obtain ⟨_, rfl⟩ := e1
+  rw [ho, hs, hp] at hok
+  exact hok
+
+/-- completeness: whenever a free run of length `n` exists, `alloc(n)` succeeds — for every
+    choice oracle -/
+theorem free_run_is_allocatable {size pos off : Nat} {a : CBA} {L : Ledger}
+    (h : Reach size pos off a L) {n x : Nat} (hn : 0 < n)
+    (hrun : FreeRun L (pos + off) (off + size) x n) (k : Nat) :
+    ∃ a' y, a.alloc n k = .ok (a', some y) := by
+  obtain ⟨a1, o1, e1⟩ := alloc_free_never_raise h (op := .alloc n k) hn
+  simp only [CBA.step, bind, Except.bind] at e1
+  cases e : a.alloc n k with
+  | error err => rw [e] at e1; simp at e1
+  | ok r =>
+    obtain ⟨a', r⟩ := r
+    cases r with
+    | some y => exact ⟨a', y, rfl⟩
+    | none => exact absurd hrun (no_space_only_if_no_run h hn e x)
+
+/-- live ranges are pairwise non-overlapping and inside the partition -/
+theorem live_ranges_disjoint {size pos off : Nat} {a : CBA} {L : Ledger}
+    (h : Reach size pos off a L) :
+    (∀ r ∈ L, pos + off ≤ r.1 ∧ r.1 + r.2 ≤ off + size ∧ 0 < r.2) ∧
+    (∀ r ∈ L, ∀ r' ∈ L, r ≠ r' → Disjoint r.1 r.2 r'.1 r'.2) := by
+  obtain ⟨bs, hi, hL, ho, hs, hp⟩ := reach_inv h
+  have ht := hi.tiles
+  rw [ho, hs, hp] at ht
+  constructor
+  · intro r hr
+    have := tiles_mem ht ((hL r.1 r.2).mp (by cases r; exact hr))
+    exact this
+  · intro r hr r' hr' hne
+    have h1 := (hL r.1 r.2).mp (by cases r; exact hr)
+    have h2 := (hL r'.1 r'.2).mp (by cases r'; exact hr')
+    have := tiles_disjoint ht h1 h2 (by
+      intro e; simp only [Block.mk.injEq, and_true] at e
+      exact hne (by cases r; cases r'; simp_all))
+    exact this
+
+/-- `free` of a live range makes it available again (whatever its neighbours are: the state
+    after `free` satisfies `Inv`, in particular no two neighbouring blocks are both free) -/
+theorem free_coalesces_and_reusable {size pos off : Nat} {a a' : CBA} {L : Ledger}
+    (h : Reach size pos off a L) {x m : Nat} (hx : (x, m) ∈ L)
+    (e : a.free (some x) = .ok a') :
+    (∃ bs', Inv a' bs' ∧ NoAdjFree bs') ∧
+    ∀ n k, 0 < n → n ≤ m → ∃ a'' y, a'.alloc n k = .ok (a'', some y) := by
+  have hlive := live_ranges_disjoint h
+  have hb := hlive.1 _ hx
+  simp only at hb
+  have hv : (Op.free (some x)).Valid off size := ⟨by omega, by omega⟩
+  have e' : a.step (.free (some x)) = .ok (a', .unit) := by
+    simp only [CBA.step, e, bind, Except.bind, pure, Except.pure]
+  have h' := Reach.step h hv e'
+  obtain ⟨bs', hi', _⟩ := reach_inv h'
+  refine ⟨⟨bs', hi', hi'.noAdj⟩, ?_⟩
+  intro n k hn hle
+  refine free_run_is_allocatable h' hn (x := x) ⟨hb.1, by omega, ?_⟩ k
+  intro r hr
+  simp only [Ledger.step, List.mem_filter, bne_iff_ne, ne_eq] at hr
+  have := hlive.2 _ hx r hr.1 (by intro e; rw [← e] at hr; exact hr.2 rfl)
+  simp only [Disjoint] at this ⊢
+  omega
+
+/-- freeing the same address twice: the second `free` changes nothing -/
+theorem double_free_noop {size pos off : Nat} {a a' : CBA} {L : Ledger}
+    (h : Reach size pos off a L) {x : Nat} (hx : off ≤ x ∧ x < off + size)
+    (e : a.free (some x) = .ok a') : a'.free (some x) = .ok a' := by
+  obtain ⟨bs, hi, hL, ho, hs, hp⟩ := reach_inv h
+  obtain ⟨a1, bs1, e1, hi1, hf1, hu⟩ := free_inv hi (x := x) (by rw [ho, hs]; exact hx)
+  rw [e] at e1
+  simp only [Except.ok.injEq] at e1
+  subst e1
+  refine free_noop hi1.toWInv (by rw [hf1.1, hf1.2.1, ho, hs]; exact hx) ?_
+  intro u hu1 huu
+  exact ((hu u huu).mp hu1).2
+
+/-- `free(None)` and `free` of an address at which no live range starts change nothing -/
+theorem free_not_live_noop {size pos off : Nat} {a : CBA} {L : Ledger}
+    (h : Reach size pos off a L) :
+    a.free none = .ok a ∧
+    ∀ x, off ≤ x ∧ x < off + size → (∀ m, (x, m) ∉ L) → a.free (some x) = .ok a := by
+  refine ⟨rfl, ?_⟩
+  intro x hx hno
+  obtain ⟨bs, hi, hL, ho, hs, hp⟩ := reach_inv h
+  refine free_noop hi.toWInv (by rw [ho, hs]; exact hx) ?_
+  intro u hu huu e
+  refine hno u.size ((hL x u.size).mpr ?_)
+  have : u = ⟨x, u.size, true⟩ := by cases u; simp_all
+  rw [← this]; exact hu
+
+/-- quantifying over the oracle index `k` covers every behaviour of `bi.choice`: each element of
+    a candidate set is selected by some `k` -/
+theorem choice_oracle_covers_every_candidate {l : List Nat} {st : Nat} (h : st ∈ l) :
+    ∃ k, pick l k = some st := pick_surjective h
+
+/-- `blocks()` returns exactly the live ranges (as used blocks, in address order) -/
+theorem blocks_are_live_ranges {size pos off : Nat} {a : CBA} {L : Ledger}
+    (h : Reach size pos off a L) :
+    (∀ x n, (⟨x, n, true⟩ : Block) ∈ a.blocks ↔ (x, n) ∈ L) ∧
+    (∀ b ∈ a.blocks, b.used = true) ∧
+    a.blocks.Pairwise (fun b c => b.start + b.size ≤ c.start) := by
+  obtain ⟨bs, hi, hL, ho, hs, hp⟩ := reach_inv h
+  rw [blocks_eq hi.toWInv]
+  refine ⟨fun x n => by rw [hL x n]; simp, fun b hb => by simpa using (List.mem_filter.mp hb).2, ?_⟩
+  apply List.Pairwise.filter
+  have : ∀ (l : List Block) lo hi, Tiles l lo hi → l.Pairwise (fun b c => b.start + b.size ≤ c.start) := by
+    intro l
+    induction l with
+    | nil => intros; exact List.Pairwise.nil
+    | cons b l ih =>
+      intro lo hi ht
+      obtain ⟨h1, h2, h3⟩ := ht
+      refine List.Pairwise.cons ?_ (ih _ _ h3)
+      intro c hc
+      have := tiles_mem h3 hc; omega
+  exact this _ _ _ hi.tiles
+
+/-! ## NodeIDAllocator -/
+
+/-- Node ids lie in the requesting client's id range: `user·2^26 + init ≤ id < (user+1)·2^26`,
+    for every number of allocations (wrap-around included). -/
+theorem node_id_in_client_range {user i0 : Nat} {a : NIA} (hinit : NIA.init user (i0 : Int) = some a)
+    (hi : i0 ≤ 0x03FFFFFF) (n : Nat) :
+    ∀ x ∈ (a.allocs n).2, ∃ v, x = some v ∧ user * 2 ^ 26 + i0 ≤ v ∧ v < (user + 1) * 2 ^ 26 := by
+  have hat := NIA.init_at hinit hi
+  rw [(NIA.allocs_at hat n).1]
+  intro x hx
+  simp only [List.mem_map, List.mem_range] at hx
+  obtain ⟨i, _, rfl⟩ := hx
+  have hlt : (0 + i) % window i0 < window i0 := Nat.mod_lt _ (by unfold window; omega)
+  refine ⟨_, rfl, ?_⟩
+  generalize (0 + i) % window i0 = q at hlt ⊢
+  unfold window at hlt
+  rw [idOf_eq (by omega)]
+  constructor
+  · omega
+  · have : (user + 1) * 2 ^ 26 = user * 2 ^ 26 + 2 ^ 26 := by rw [Nat.add_mul]; simp
+    omega
+
+/-- The `i`-th id handed out (from a fresh allocator) in closed form. -/
+theorem node_id_closed_form {user i0 : Nat} {a : NIA} (hinit : NIA.init user (i0 : Int) = some a)
+    (hi : i0 ≤ 0x03FFFFFF) (n i : Nat) (hin : i < n) :
+    (a.allocs n).2[i]? = some (some (user * 2 ^ 26 + (i0 + i % window i0))) := by
+  have hat := NIA.init_at hinit hi
+  rw [(NIA.allocs_at hat n).1]
+  have hlt : i % window i0 < window i0 := Nat.mod_lt _ (by unfold window; omega)
+  simp only [List.getElem?_map, List.getElem?_range hin, Option.map_some, Nat.zero_add]
+  generalize i % window i0 = q at hlt ⊢
+  unfold window at hlt
+  rw [idOf_eq (by omega)]
+
+/-- Ids handed out by any `W = 0x03FFFFFF − init + 1` consecutive allocations are pairwise
+    distinct (`i < j < i + W`), wherever the window lies in the history. -/
+theorem node_ids_distinct_in_window {user i0 : Nat} {a : NIA} (hinit : NIA.init user (i0 : Int) = some a)
+    (hi : i0 ≤ 0x03FFFFFF) (n i j : Nat) (hij : i < j) (hjn : j < n) (hw : j - i < window i0) :
+    (a.allocs n).2[i]? ≠ (a.allocs n).2[j]? := by
+  rw [node_id_closed_form hinit hi n i (by omega), node_id_closed_form hinit hi n j hjn]
+  intro e
+  simp only [Option.some.injEq] at e
+  have e' : i % window i0 = j % window i0 := by omega
+  have h1 := Nat.sub_mod_eq_zero_of_mod_eq e'.symm
+  rw [Nat.mod_eq_of_lt hw] at h1
+  omega
+
+/-- The window is tight: the id repeats exactly `W` allocations later. -/
+theorem node_id_repeats_after_window {user i0 : Nat} {a : NIA} (hinit : NIA.init user (i0 : Int) = some a)
+    (hi : i0 ≤ 0x03FFFFFF) (n i : Nat) (hin : i + window i0 < n) :
+    (a.allocs n).2[i + window i0]? = (a.allocs n).2[i]? := by
+  rw [node_id_closed_form hinit hi n i (by omega), node_id_closed_form hinit hi n _ hin]
+  simp
+
+/-- Ids of different clients never coincide. -/
+theorem node_ids_disjoint_across_clients {u1 u2 i1 i2 : Nat} {a1 a2 : NIA}
+    (h1 : NIA.init u1 (i1 : Int) = some a1) (h2 : NIA.init u2 (i2 : Int) = some a2)
+    (hi1 : i1 ≤ 0x03FFFFFF) (hi2 : i2 ≤ 0x03FFFFFF) (hne : u1 ≠ u2) (n m : Nat) :
+    ∀ x ∈ (a1.allocs n).2, ∀ y ∈ (a2.allocs m).2, x ≠ y := by
+  intro x hx y hy e
+  obtain ⟨v, rfl, hv1, hv2⟩ := node_id_in_client_range h1 hi1 n x hx
+  obtain ⟨w, rfl, hw1, hw2⟩ := node_id_in_client_range h2 hi2 m y hy
+  simp only [Option.some.injEq] at e
+  subst e
+  rcases Nat.lt_or_gt_of_ne hne with hlt | hlt
+  · have : (u1 + 1) * 2 ^ 26 ≤ u2 * 2 ^ 26 := Nat.mul_le_mul_right _ hlt
+    omega
+  · have : (u2 + 1) * 2 ^ 26 ≤ u1 * 2 ^ 26 := Nat.mul_le_mul_right _ hlt
+    omega
+
+/-! ## per-client partitions (`Server._new_bus_allocators`, `_new_buffer_allocators`; the
+definitions `busAllocArgs`, `bufferAllocArgs`, `nodeAllocArgs` are REGENERATED from server.py) -/
+
+theorem fdiv_bounds {t L c : Int} (hL : 0 < L) (ht : 0 ≤ t) (hc : 0 ≤ c ∧ c < L) :
+    0 ≤ Int.fdiv t L ∧ 0 ≤ Int.fdiv t L * c ∧ Int.fdiv t L * c + Int.fdiv t L ≤ t := by
+  rw [Int.fdiv_eq_ediv_of_nonneg _ (le_of_lt hL)]
+  have h1 : 0 ≤ t / L := Int.ediv_nonneg ht (le_of_lt hL)
+  have h2 : t / L * L ≤ t := Int.ediv_mul_le t (ne_of_gt hL)
+  refine ⟨h1, by nlinarith [hc.1], ?_⟩
+  nlinarith [hc.2, mul_le_mul_of_nonneg_left (show c + 1 ≤ L by omega) h1]
+
+theorem fdiv_step {t L c1 c2 : Int} (hL : 0 < L) (ht : 0 ≤ t) (hc : c1 < c2) :
+    Int.fdiv t L * c1 + Int.fdiv t L ≤ Int.fdiv t L * c2 := by
+  rw [Int.fdiv_eq_ediv_of_nonneg _ (le_of_lt hL)]
+  have h1 : 0 ≤ t / L := Int.ediv_nonneg ht (le_of_lt hL)
+  nlinarith [mul_le_mul_of_nonneg_left (show c1 + 1 ≤ c2 by omega) h1]
+
+/-- a sensible server configuration -/
+structure Opts.Ok (o : Opts) : Prop where
+  logins : 0 < o.max_logins
+  client : 0 ≤ o.client_id ∧ o.client_id < o.max_logins
+  io : 0 ≤ firstPrivateBus o ∧ firstPrivateBus o ≤ o.audio_buses
+  ctrl : 0 ≤ o.control_buses
+  bufs : 0 ≤ o.buffers
+
+/-- the same server seen by another client -/
+def Opts.withClient (o : Opts) (c : Int) : Opts := { o with client_id := c }
+
+/-- the range `[addr_offset, addr_offset + size)` a client's allocator works in lies inside the
+    server's resource: control buses `[0, control_buses)`, private audio buses
+    `[first_private_bus, audio_buses)`, buffers `[0, buffers)` -/
+theorem partition_inside_total (o : Opts) (h : o.Ok) :
+    (0 ≤ (busAllocArgs o).1.1 ∧ 0 ≤ (busAllocArgs o).1.2.2 ∧
+      (busAllocArgs o).1.2.2 + (busAllocArgs o).1.1 ≤ o.control_buses) ∧
+    (0 ≤ (busAllocArgs o).2.1 ∧ firstPrivateBus o ≤ (busAllocArgs o).2.2.2 ∧
+      (busAllocArgs o).2.2.2 + (busAllocArgs o).2.1 ≤ o.audio_buses) ∧
+    (0 ≤ (bufferAllocArgs o).1 ∧ 0 ≤ (bufferAllocArgs o).2.2 ∧
+      (bufferAllocArgs o).2.2 + (bufferAllocArgs o).1 ≤ o.buffers) := by
+  have hc := fdiv_bounds h.logins h.ctrl h.client
+  have ha := fdiv_bounds (t := o.audio_buses - firstPrivateBus o) h.logins (by have := h.io; omega) h.client
+  have hb := fdiv_bounds h.logins h.bufs h.client
+  simp only [busAllocArgs, bufferAllocArgs]
+  refine ⟨⟨hc.1, hc.2.1, hc.2.2⟩, ⟨ha.1, ?_, ?_⟩, ⟨hb.1, hb.2.1, hb.2.2⟩⟩
+  · have := ha.2.1; omega
+  · have := ha.2.2; omega
+
+/-- different client ids get disjoint ranges: client `c1 < c2` ends before `c2` begins; the
+    partition size and reserved offset do not depend on the client -/
+theorem partitions_disjoint (o : Opts) (h : o.Ok) (c1 c2 : Int) (hc : c1 < c2) :
+    let o1 := o.withClient c1; let o2 := o.withClient c2
+    ((busAllocArgs o1).1.2.2 + (busAllocArgs o1).1.1 ≤ (busAllocArgs o2).1.2.2 ∧
+      (busAllocArgs o1).1.1 = (busAllocArgs o2).1.1 ∧ (busAllocArgs o1).1.2.1 = (busAllocArgs o2).1.2.1) ∧
+    ((busAllocArgs o1).2.2.2 + (busAllocArgs o1).2.1 ≤ (busAllocArgs o2).2.2.2 ∧
+      (busAllocArgs o1).2.1 = (busAllocArgs o2).2.1 ∧ (busAllocArgs o1).2.2.1 = (busAllocArgs o2).2.2.1) ∧
+    ((bufferAllocArgs o1).2.2 + (bufferAllocArgs o1).1 ≤ (bufferAllocArgs o2).2.2 ∧
+      (bufferAllocArgs o1).1 = (bufferAllocArgs o2).1 ∧ (bufferAllocArgs o1).2.1 = (bufferAllocArgs o2).2.1) := by
+  have h1 := fdiv_step (t := o.control_buses) h.logins h.ctrl hc
+  have h2 := fdiv_step (t := o.audio_buses - firstPrivateBus o) h.logins (by have := h.io; omega) hc
+  have h3 := fdiv_step (t := o.buffers) h.logins h.bufs hc
+  simp only [busAllocArgs, bufferAllocArgs, Opts.withClient, firstPrivateBus] at *
+  refine ⟨⟨h1, trivial, trivial⟩, ⟨by omega, trivial, trivial⟩, ⟨h3, trivial, trivial⟩⟩
+
+/-- the node allocator is created for the client id with `initial_node_id` as first id -/
+theorem node_alloc_args (o : Opts) : nodeAllocArgs o = (o.client_id, o.initial_node_id) := rfl
+
+/-- Two clients of one server never receive overlapping bus/buffer ranges, whatever their
+    histories: an allocator built from any `(size, pos, addr_offset)` only hands out ranges in
+    `[addr_offset + pos, addr_offset + size)`, and `partitions_disjoint` orders these intervals. -/
+theorem clients_never_collide {size pos off1 off2 : Nat} (hdis : off1 + size ≤ off2)
+    {a1 a2 a1' a2' : CBA} {L1 L2 : Ledger}
+    (h1 : Reach size pos off1 a1 L1) (h2 : Reach size pos off2 a2 L2)
+    {n1 k1 x1 n2 k2 x2 : Nat} (hn1 : 0 < n1) (hn2 : 0 < n2)
+    (e1 : a1.alloc n1 k1 = .ok (a1', some x1)) (e2 : a2.alloc n2 k2 = .ok (a2', some x2)) :
+    x1 + n1 ≤ x2 := by
+  have p1 := alloc_in_partition h1 hn1 e1
+  have p2 := alloc_in_partition h2 hn2 e2
+  omega
+
+/-! ## Non-vacuity: concrete histories evaluated by the kernel -/
+
+/-- the failing input of D7 (offset 21): after the repair the freed block merges with the free
+    top block and `alloc 7` succeeds -/
+example : (do let a ← (CBA.init 7 0 21).elim (.error .index) .ok
+              let r ← a.run [.alloc 2 3, .free (some 21), .alloc 7 0]
+              pure r.2 : M (List Out))
+    = .ok [.addr (some 21), .unit, .addr (some 21)] := by decide
+
+/-- a history with split, exact fit from the freed dict, merge with previous and next, a double
+    free, a free of an interior address, free(None) and a "no space" answer -/
+def exampleOps : List Op :=
+  [.alloc 2 0, .alloc 2 0, .alloc 2 0, .alloc 2 0, .alloc 1 0, .free (some 10), .free (some 10),
+   .free (some 14), .free (some 12), .alloc 6 0, .alloc 7 0, .free none, .free (some 11),
+   .alloc 2 1, .alloc 1 0]
+
+example : ((CBA.init 8 0 8).bind fun a => (a.run exampleOps).toOption.map (·.2))
+    = some [.addr (some 8), .addr (some 10), .addr (some 12), .addr (some 14), .addr none, .unit, .unit,
+       .unit, .unit, .addr (some 10), .addr none, .unit, .unit, .addr none, .addr none] := by decide
+
+example : ValidOps 8 8 exampleOps := by
+  intro op hop
+  simp only [exampleOps, List.mem_cons, List.not_mem_nil, or_false] at hop
+  rcases hop with rfl | rfl | rfl | rfl | rfl | rfl | rfl | rfl | rfl | rfl | rfl | rfl | rfl | rfl | rfl <;>
+    simp [Op.Valid]
+
+example : ∃ a, Reach 8 0 8 a [] := ⟨_, Reach.init (a := (CBA.init 8 0 8).get rfl) (by decide)⟩
+
+/-- node ids: client 3, first id 0x03FFFFFE: two ids, then wrap-around -/
+example : ((NIA.init 3 0x03FFFFFE).map fun a => (a.allocs 4).2)
+    = some [some 268435454, some 268435455, some 268435454, some 268435455] := by decide
+
+/-- default options of sc3 (1024 audio buses, 2 in + 2 out, 16384 control buses, 1024 buffers),
+    4 logins, client 2 -/
+example : busAllocArgs ⟨16384, 1024, 1024, 2, 2, 4, 0, 0, 0, 2, 1000⟩ = ((4096, 0, 8192), (255, 0, 514)) ∧
+    bufferAllocArgs ⟨16384, 1024, 1024, 2, 2, 4, 0, 0, 0, 2, 1000⟩ = (256, 0, 512) := by decide
+
+example : Opts.Ok ⟨16384, 1024, 1024, 2, 2, 4, 0, 0, 0, 2, 1000⟩ :=
+  ⟨by decide, by decide, by decide, by decide, by decide⟩
+
+end Sc3Verif.C16
